@@ -1,7 +1,11 @@
 //! casim — deterministic simulation with fault injection for cassadilia (see /verif/DESIGN.md).
 
 #![allow(dead_code)]
+mod alloc;
 mod case;
+
+#[global_allocator]
+static GLOBAL: alloc::Counting = alloc::Counting;
 mod damage;
 mod errmode;
 mod forge;
@@ -68,6 +72,7 @@ fn main() {
         "replay" => driver::cmd_replay(&pos, &flags),
         "selftest" => driver::cmd_selftest(&pos, &flags),
         "show" => driver::cmd_show(&pos, &flags),
+        "holder" => std::process::exit(procs::cmd_holder(&args[1..])),
         _ => usage(),
     };
     seqrun::cleanup_scratch();
